@@ -114,6 +114,128 @@ pub fn c01(run: &mut Run) {
         run.require_label("c01_model", l, 0.01);
     }
     crate::fuzzdrv::campaign(run, "fz_c01", 1_600_000);
+    structural_exhaustive(run, "c01_structural_exhaustive", false);
+}
+
+/// Exhaustive enumeration of keyframe *structures* on a coarse grid: every non-empty subset of the
+/// positions {0, 1/4, 1/2, 3/4, 1}, every assignment of "defines a / defines b / defines both" to the
+/// chosen keyframes (4^5 - 1 = 1023 structures), x 6 timing variants (reverse x {no repeat, 1x, 2x})
+/// x 2 insertion orders x with/without start value. Linear easing, values multiples of 16: keyframe hits
+/// and every sample point whose segment fraction is exactly representable are judged with EQUALITY, the
+/// remaining sample points with the derived tolerance.
+fn structural_exhaustive(run: &mut Run, name: &str, hits_only: bool) {
+    let total: u64 = 1023 * 6 * 2 * 2;
+    run.enumerate(
+        name,
+        "ALL 1023 keyframe structures over the positions {0,1/4,1/2,3/4,1} (each chosen keyframe defines a, b or both) x {reverse on/off} x {no repeat, 1x, 2x} x {ascending, descending insertion} x {with, without start_with}; linear easing and values k*16; sampled at every 1/16 of every cycle: keyframe hits and all points whose segment fraction is exactly representable must match the f64 model with EQUALITY, the others within the derived tolerance; non-trivial = structure with a synthetic 0 % or 100 % frame or a keyframe omitting a property; every index a distinct configuration",
+        total,
+        32,
+        true,
+        |range, eo| {
+            for idx in range {
+                let mut code = idx;
+                let with_start = code % 2 == 1;
+                code /= 2;
+                let descending = code % 2 == 1;
+                code /= 2;
+                let tv = code % 6;
+                code /= 6;
+                let mut digits = [0u8; 5]; // base-4 digits, structure number 1..=1023
+                let mut st = code + 1;
+                for d in digits.iter_mut() {
+                    *d = (st % 4) as u8;
+                    st /= 4;
+                }
+                let mut kfs = vec![];
+                for (i, d) in digits.iter().enumerate() {
+                    if *d == 0 {
+                        continue;
+                    }
+                    let pos = i as f32 / 4.0;
+                    let va = 16.0 * (3 * i as i32 - 4) as f32 * if i % 2 == 0 { 1.0 } else { -1.0 };
+                    let vb = 32.0 * (i as f32 + 1.0);
+                    kfs.push(KfDesc { pos, a: if *d & 1 != 0 { Some(va) } else { None }, b: if *d & 2 != 0 { Some(vb) } else { None }, c: if *d & 1 != 0 { Some(va as i32 * 4) } else { None }, d: None, ez: None });
+                }
+                if descending {
+                    kfs.reverse();
+                }
+                let timing = Timing { cycle: 4.0, delay: 2.0, repeat: [Rep::None, Rep::Times(1), Rep::Times(2)][(tv % 3) as usize], reverse: tv >= 3 };
+                let desc = TlDesc { timing, default_ez: Ez::Linear, kfs };
+                let model = ModelTl::new(&desc);
+                let mut tl = desc.build();
+                let start = Vals { a: 1024.0, b: -2048.0, c: 4096, d: 9 };
+                if with_start {
+                    tl.start_with(&P::from_vals(&start));
+                }
+                let cycles = timing.repeat.cycles().unwrap();
+                let fail = |d: String| (serde_json::json!({"index": idx, "desc": desc, "with_start": with_start}), d);
+                let mut nontrivial = false;
+                // sample points: every 1/16 of every cycle (keyframe hits, midpoints, quarter points), plus before/after
+                let steps = if timing.reverse { 32 } else { 16 };
+                let mut times: Vec<f32> = vec![0.0, 1.0, 2.0];
+                for k in 0..cycles {
+                    for j in 0..=steps {
+                        times.push(2.0 + 4.0 * (k as f32 + j as f32 / steps as f32));
+                    }
+                }
+                times.push(2.0 + 4.0 * cycles as f32 + 0.5);
+                times.push(1.0e6);
+                for t in times {
+                    let mut target = sentinel(3);
+                    tl.update(&mut target, t);
+                    let ph = timing.phase(t as f64);
+                    for i in 0..3 {
+                        let fr = &model.frames[i];
+                        if fr.is_empty() {
+                            if target.bits()[i] != sentinel(3).bits()[i] {
+                                return Err(fail(format!("property {} has no keyframe but was modified at t={t}", PROP_NAMES[i])));
+                            }
+                            continue;
+                        }
+                        let st = if with_start { Some(start.get(i)) } else { None };
+                        let ev = mv_model::eval(fr, ph.pos(), st, ph.first_forward_pass(), &|e: &Ez, x: f64| e.model(x)).unwrap();
+                        if hits_only && !ev.hit {
+                            continue;
+                        }
+                        if ev.ambiguous {
+                            continue;
+                        }
+                        let want = if PROP_IS_INT[i] { ev.value.round() } else { ev.value };
+                        // ints: .5 ties may round either way
+                        let tie = PROP_IS_INT[i] && (ev.value - ev.value.floor() - 0.5).abs() < 1e-9;
+                        let got = target.get(i);
+                        // equality where the segment fraction and the value are exactly representable
+                        // (power-of-two segment widths); the derived tolerance elsewhere
+                        let exact_point = ev.hit || (exact32(ev.x) && exact32(ev.value) && exact32(1.0 - ev.x));
+                        if !exact_point {
+                            if let Err(e) = model.judge(i, t, st, got) {
+                                return Err(fail(e));
+                            }
+                            eo.evaluated += 1;
+                            continue;
+                        }
+                        if got != want && !(tie && (got - ev.value).abs() <= 0.5) {
+                            return Err(fail(format!("property {} at t={t} (phase {:?}): got {got}, exact model value {} (segment {} of {:?})", PROP_NAMES[i], ph, ev.value, ev.seg, fr.iter().map(|f| (f.pos, f.value)).collect::<Vec<_>>())));
+                        }
+                        if fr[0].synthetic || fr[fr.len() - 1].synthetic {
+                            nontrivial = true;
+                        }
+                        eo.evaluated += 1;
+                    }
+                }
+                if digits.iter().any(|d| *d == 1 || *d == 2) {
+                    nontrivial = true;
+                }
+                if nontrivial {
+                    eo.nontrivial += 1;
+                }
+                if idx % 3001 == 0 {
+                    eo.sample(|| serde_json::json!({"index": idx, "desc": desc, "with_start": with_start}));
+                }
+            }
+            Ok(())
+        },
+    );
 }
 
 // =============================================================================================
@@ -341,6 +463,7 @@ pub fn c02(run: &mut Run) {
     for l in ["kf_hit_distinct_from_neighbours", "reverse_pass_hit", "cycle_ge_1_hit", "end_of_forward_pass", "after_total", "before_delay"] {
         run.require_label("c02_exact", l, 0.05);
     }
+    structural_exhaustive(run, "c02_structural_exhaustive", true);
 }
 
 // =============================================================================================
